@@ -1,5 +1,5 @@
 """Symbolic MIR interpreter core (prototype)."""
-import re, itertools, copy, sys, time, collections
+import re, itertools, copy, sys, time, collections, os
 import z3
 from parse import parse_file, split_top, Func
 
@@ -81,6 +81,7 @@ class Frame:
         f = Frame(s.func, dict(s.locals), s.ret_dest, s.ret_bb, s.on_return, s.tag)
         f.block, f.idx = s.block, s.idx
         f.generics = getattr(s, 'generics', {})
+        if 'visits' in s.__dict__: f.visits = dict(s.visits)
         return f
 
 class ModelFrame:
@@ -132,6 +133,7 @@ class Interp:
         self._asserted = []
         self.nqueries = 0
         self.max_steps = 200000
+        self.max_block_visits = int(os.environ.get('VERIF_LOOP_BOUND', '400'))
         self.loop_bound = 8
         self.stats = {'paths': 0, 'pruned': 0, 'havoc': {}}
         self.by_method = {}
@@ -707,6 +709,10 @@ class Interp:
             if st.steps > self.max_steps: raise Stuck('step budget')
             return fr.handler(self, st, fr)
         blk = fr.func.blocks[fr.block]
+        if fr.idx == 0:
+            # loop bound: a block entered this often within one activation means a loop the models cannot terminate (e.g. an unmodelled iterator)
+            vis = fr.__dict__.setdefault('visits', {}); n = vis.get(fr.block, 0) + 1; vis[fr.block] = n
+            if n > self.max_block_visits: raise Stuck(f'loop bound: block {fr.block} of {fr.func.name} entered {n} times in one activation')
         while fr.idx < len(blk.stmts):
             s = blk.stmts[fr.idx]; fr.idx += 1
             if s[0] == 'assign':
